@@ -41,6 +41,26 @@ theorem ssc_service_actions : setServiceActionsOK Gen.ssc = true := by decide +k
 theorem smc_service_actions : setServiceActionsOK Gen.smc = true := by decide +kernel
 theorem mmc_service_actions : setServiceActionsOK Gen.mmc = true := by decide +kernel
 
+/-- **service actions hang off the operation code they belong to**: on every entry that names one command (not the
+    generic `*_OPCODE_xx` entries, which carry the whole shared table) each listed service action is a service action
+    of that entry's operation code -/
+def isGeneric (k : String) : Bool :=
+  ["SPC_OPCODE_A3", "SPC_OPCODE_A4", "SBC_OPCODE_7F", "SBC_OPCODE_9E", "SBC_OPCODE_A3", "SBC_OPCODE_A4", "SSC_OPCODE_A3",
+   "SSC_OPCODE_A4", "SMC_OPCODE_A3", "SMC_OPCODE_A4",
+   "OPEN_CLOSE_IMPORT_EXPORT_ELEMENT"   -- (smc, 1Bh) is given the whole shared table as well
+  ].contains k
+
+def setServiceActionHomesOK (set : List (String × OpCode)) : Bool :=
+  set.all (fun e => isGeneric e.1 || e.2.sas.all (fun sa => match lookup t10ServiceActionHome sa.1 with
+    | some op => op == e.2.value
+    | none => true))
+
+theorem spc_service_action_homes : setServiceActionHomesOK Gen.spc = true := by decide +kernel
+theorem sbc_service_action_homes : setServiceActionHomesOK Gen.sbc = true := by decide +kernel
+theorem ssc_service_action_homes : setServiceActionHomesOK Gen.ssc = true := by decide +kernel
+theorem smc_service_action_homes : setServiceActionHomesOK Gen.smc = true := by decide +kernel
+theorem mmc_service_action_homes : setServiceActionHomesOK Gen.mmc = true := by decide +kernel
+
 theorem names_agree : Gen.sets.all (fun s => setNamesOK s.2) = true := by decide +kernel
 
 /-- **the same name has the same value in every command set that lists it** (no oracle needed) -/
